@@ -5,8 +5,10 @@
    (expand_min_exact / expand_min_complete), for completion by skip_remaining, for source-block expansion from a fresh
    diagram with every option combination and ANY tape (expand_block_MinFound: independence of minimal source blocks,
    BlockMath.min_trap_in_block / same_child_same_block) and for attractor-seed expansion from any plainly reached diagram
-   (expand_aseeds_MinFound).  PARTIAL: the source-SCC strategy is decided by the comparison of minimal_trap_spaces()
-   with Brute.min_traps_b (exact by min_traps_b_spec) only.
+   (expand_aseeds_MinFound).  The source-SCC strategy is modelled (SCC.v, replayed id by id): its components are the closed,
+   strongly connected, pairwise disjoint sets of source_sccs_spec, every node it creates is a trap space of the network
+   (graft_trap, expand_scc_TrapNodes) and it only adds nodes (expand_scc_grows).  PARTIAL: that it misses no minimal trap
+   space is decided by the comparison of minimal_trap_spaces() with Brute.min_traps_b (exact by min_traps_b_spec).
 
    This file contains only restatements closed by `exact` (statements produced by Coq's own
    `Check` of the library lemma) plus non-vacuity Examples, each followed by Print Assumptions. *)
@@ -15,7 +17,7 @@ Import ListNotations.
 From BB Require Import BN Brute SpaceFacts TrapFacts PercolateFacts AttractorFacts Diagram Invariants Checks Filter
   Strict PetriNet Control Meta FilterFacts PetriNetFacts TrappistFacts DiagramStruct DiagramSem1 DiagramCache
   DiagramDepth DiagramComplete Termination ControlFacts MetaFacts Candidates StrictFacts MinExpandFacts CandidatesFacts SymbolicTest SymbolicTestFacts Signed ReductionFacts ControlFacts2 Main Blocks BlocksFacts ObsFacts OwnerFacts CandidatesTerm
-  PartialOwner BlockMath BlockComplete ASeeds ASeedsFacts LogChecks SkipRule SkipRuleFacts Names NamesFacts Perm PermFacts SCC SCCFacts.
+  PartialOwner BlockMath BlockComplete ASeeds ASeedsFacts LogChecks SkipRule SkipRuleFacts Names NamesFacts Perm PermFacts SCC SCCFacts SCCStruct ControlFacts3.
 
 Theorem C03_bfs_complete : forall (fuel : nat) (N : net) (cfg : config) (d d' : sd), 1 <= max_motifs cfg -> SWF N d -> NoStubEdges d -> EdgeStrict d -> Rooted d -> expand_bfs fuel N cfg d None None None = (d', RBool true) -> AllExpanded d'.
 Proof. exact bfs_complete. Qed.
@@ -98,6 +100,23 @@ Proof. exact expand_aseeds_LeafOK. Qed.
 Theorem C03_work_list_descent : forall (N : net) (d : sd), SWF N d -> TrapNodes N d -> EdgeStrict d -> n_space (get d 0) = percolate_b N (top_space (nvars N)) -> n_exp (get d 0) = true -> min_good N d [] -> MinFound N d.
 Proof. exact min_good_found. Qed.
 
+(* source SCCs: non-empty, closed under regulators, duplicate-free, strongly connected *)
+Theorem C03_scc_components : forall (N : net) (S : list (option bool)) (B : list nat), length S = nvars N -> In B (source_sccs N S) -> B <> [] /\ closed_in N S B /\ NoDup B /\ (forall u v : nat, In u B -> In v B -> In v (fwd_closure (nvars N) N S [u])).
+Proof. exact source_sccs_spec. Qed.
+
+Theorem C03_scc_components_disjoint : forall (N : net) (S : list (option bool)) (B1 B2 : list nat) (v : nat), length S = nvars N -> In B1 (source_sccs N S) -> In B2 (source_sccs N S) -> In v B1 -> In v B2 -> B1 = B2.
+Proof. exact source_sccs_disjoint. Qed.
+
+(* a trap space of the component sub-network grafted onto the attach space is a trap space of the network *)
+Theorem C03_scc_graft_trap : forall (N : net) (S : space) (B : list nat) (T A : space), trap_space N S -> closed_in N S B -> trap_space (sub_net N S B) T -> trap_space N A -> subspace A S = true -> (forall v : nat, In v B -> nth v A None = None) -> trap_space N (graft B T A).
+Proof. exact graft_trap. Qed.
+
+Theorem C03_scc_expansion_trap_nodes : forall (fuel : nat) (N : net) (cfg : config) (d : sd) (maa : bool) (tape : tape_t), 1 <= max_motifs cfg -> SWF N d -> TrapNodes N d -> TrapNodes N (fst (expand_scc fuel N cfg d maa tape)).
+Proof. exact expand_scc_TrapNodes. Qed.
+
+Theorem C03_scc_expansion_grows : forall (fuel : nat) (N : net) (cfg : config) (d : sd) (maa : bool) (tape : tape_t), size d <= size (fst (expand_scc fuel N cfg d maa tape)) /\ (forall i : nat, i < size d -> n_space (get (fst (expand_scc fuel N cfg d maa tape)) i) = n_space (get d i)).
+Proof. exact expand_scc_grows. Qed.
+
 (* non-vacuity: two bistable switches; x0'=x1, x1'=x0, x2'=x3, x3'=x2 *)
 Definition ex_sw : net := [fun s => nth 1 s false; fun s => nth 0 s false; fun s => nth 3 s false; fun s => nth 2 s false].
 Definition ex_cfg : config := {| max_motifs := 1000 |}.
@@ -131,3 +150,8 @@ Print Assumptions C03_block_expansion_shapes.
 Print Assumptions C03_aseeds_expansion_complete.
 Print Assumptions C03_aseeds_expansion_leaves_minimal.
 Print Assumptions C03_work_list_descent.
+Print Assumptions C03_scc_components.
+Print Assumptions C03_scc_components_disjoint.
+Print Assumptions C03_scc_graft_trap.
+Print Assumptions C03_scc_expansion_trap_nodes.
+Print Assumptions C03_scc_expansion_grows.
